@@ -1,0 +1,137 @@
+//! Verification hooks for the language servers.
+//!
+//! This module only exists when the crate is compiled with `--cfg a2kit_verif`.
+//! It lets an external test driver observe what the analysis threads and the main loop
+//! of a language server did (an append-only event log), and perturb the thread schedule
+//! (environment driven delays, and an injected panic for testing lock poisoning).
+//! None of this is compiled into a normal build.
+//!
+//! * If `A2KIT_VERIF_LOG` is set, one line per event goes to standard error:
+//!   `a2kit-verif<TAB>tag<TAB>id<TAB>uri<TAB>version` (version -1 means none).
+//!   (Standard error rather than a file, so that this module contains no file-writing API.)
+//! * `A2KIT_VERIF_SCHED` is a comma separated table `tag:version=millis`, e.g.
+//!   `lock:3=200,finish:5=50`; version `*` matches every version.  Tags are `lock`
+//!   (before `analyzer.lock()`), `hold` (after the lock was obtained, before analysis),
+//!   `finish` (after analysis, still holding the lock).  `panic:version=1` makes the
+//!   analysis thread for that version panic while it holds the lock.
+
+use std::collections::HashMap;
+use std::sync::atomic::{AtomicUsize, Ordering};
+use std::sync::Mutex;
+use std::thread::ThreadId;
+
+static LOG: Mutex<()> = Mutex::new(());
+static NEXT_ID: AtomicUsize = AtomicUsize::new(0);
+static THREADS: Mutex<Option<HashMap<ThreadId, usize>>> = Mutex::new(None);
+
+/// Write one event line to standard error.
+pub fn event(tag: &str, id: usize, uri: &str, version: i64) {
+    if std::env::var_os("A2KIT_VERIF_LOG").is_some() {
+        let _guard = LOG.lock().unwrap_or_else(|e| e.into_inner());
+        eprintln!("a2kit-verif\t{}\t{}\t{}\t{}", tag, id, uri, version);
+    }
+}
+
+fn lookup(tag: &str, version: i64) -> Option<u64> {
+    let table = std::env::var("A2KIT_VERIF_SCHED").ok()?;
+    for item in table.split(',') {
+        if let Some((key, val)) = item.trim().split_once('=') {
+            if let Some((t, v)) = key.split_once(':') {
+                if t == tag && (v == "*" || v.parse::<i64>().ok() == Some(version)) {
+                    return val.parse::<u64>().ok();
+                }
+            }
+        }
+    }
+    None
+}
+
+/// Sleep if the schedule table has an entry for this tag and version.
+pub fn sched_point(tag: &str, version: i64) {
+    if let Some(ms) = lookup(tag, version) {
+        std::thread::sleep(std::time::Duration::from_millis(ms));
+    }
+}
+
+fn ver(version: Option<i32>) -> i64 {
+    match version {
+        Some(v) => v as i64,
+        None => -1,
+    }
+}
+
+/// Main thread, at job launch.  Returns the job id.
+/// `private` tells whether the job got its own analyzer rather than the shared one.
+pub fn launch(private: bool, uri: &str, version: Option<i32>) -> usize {
+    let id = NEXT_ID.fetch_add(1, Ordering::SeqCst);
+    event(if private { "launch-private" } else { "launch" }, id, uri, ver(version));
+    id
+}
+
+/// Lives as long as the closure of an analysis thread.
+pub struct ThreadWatch {
+    id: usize,
+}
+
+impl Drop for ThreadWatch {
+    fn drop(&mut self) {
+        event("exit", self.id, "", -1);
+    }
+}
+
+/// Analysis thread, first thing in the closure, i.e. just before `analyzer.lock()`.
+pub fn enter(id: usize, version: Option<i32>) -> ThreadWatch {
+    {
+        let mut map = THREADS.lock().unwrap_or_else(|e| e.into_inner());
+        map.get_or_insert_with(HashMap::new).insert(std::thread::current().id(), id);
+    }
+    sched_point("lock", ver(version));
+    ThreadWatch { id }
+}
+
+/// Lives as long as the analysis thread holds the analyzer lock.
+/// Must be declared after the guard so that it is dropped before the guard.
+pub struct LockWatch {
+    id: usize,
+    version: i64,
+}
+
+impl Drop for LockWatch {
+    fn drop(&mut self) {
+        if std::thread::panicking() {
+            event("die", self.id, "", self.version);
+        } else {
+            sched_point("finish", self.version);
+            event("finish", self.id, "", self.version);
+        }
+    }
+}
+
+/// Analysis thread, right after the lock was obtained.
+pub fn acquired(id: usize, version: Option<i32>) -> LockWatch {
+    let version = ver(version);
+    event("acquire", id, "", version);
+    let watch = LockWatch { id, version };
+    sched_point("hold", version);
+    if lookup("panic", version).is_some() {
+        panic!("a2kit_verif: injected panic in analysis thread {}", id);
+    }
+    watch
+}
+
+/// Main thread, when a finished thread handle has been popped from the queue.
+pub fn harvest(thread: ThreadId) {
+    let id = {
+        let map = THREADS.lock().unwrap_or_else(|e| e.into_inner());
+        match map.as_ref().and_then(|m| m.get(&thread)) {
+            Some(id) => *id,
+            None => usize::MAX,
+        }
+    };
+    event("harvest", id, "", -1);
+}
+
+/// Main thread, just before diagnostics are pushed to the client.
+pub fn publish(uri: &str, version: Option<i32>) {
+    event("publish", 0, uri, ver(version));
+}
